@@ -25,7 +25,7 @@ def warmup():
 
 
 def cases(tier, seed):
-    sp = tsspace.space(tier)
+    sp = tsspace.space(tier, renumber=("reverse",))
     out = []
     for a in sp.args:
         E = tsspace.arg_ts(a).num_edges
